@@ -712,6 +712,9 @@ func nonNilParam(t types.Type) bool {
 	if !ok {
 		return false
 	}
+	if n.Obj().Pkg() == nil {
+		return false // the predeclared error type: nil is its normal value
+	}
 	i, ok := n.Underlying().(*types.Interface)
 	return ok && i.NumMethods() > 0
 }
